@@ -52,6 +52,8 @@ type World struct {
 	noHold bool
 	// the fake connector plugins answer ctx.Err() to a Stop / Teardown made with a cancelled context
 	strictCtx bool
+	// > 1: destinations cover up to this many records with one ack response (Topo.AckBatch)
+	ackBatch int
 
 	srcs map[string]*srcState
 	dsts map[string]*dstState
